@@ -69,6 +69,19 @@ def ops_of(e, out):
 def model(e, env):
     try:
         v, ty, ex = E.evaluate(e, env)
+        if ex == 'approx':
+            # a library function's last bits may differ from the model's; an expression whose value depends on them
+            # discontinuously (%, casts, comparisons, cancellation) cannot be judged
+            probes = []
+            for nudge in (-1, 1):
+                try: probes.append(E.evaluate(e, dict(env, nudge=nudge, stack=[])))
+                except (E.Undefined, E.Unjudged): return ('unjudged', 'ill-conditioned: defined-ness depends on the last bits of a library function')
+            for pv, pty, _ in probes:
+                if ty == INT and pv != v: return ('unjudged', 'ill-conditioned: integer result depends on the last bits of a library function')
+                if ty != INT and (pv != pv) != (v != v): return ('unjudged', 'ill-conditioned')
+                if ty != INT and v == v and not math.isinf(v) and not math.isinf(pv) and abs(pv - v) > 1e-5 * max(1e-30, abs(v)):
+                    return ('unjudged', 'ill-conditioned: result amplifies the last bits of a library function')
+                if ty != INT and math.isinf(v) != math.isinf(pv): return ('unjudged', 'ill-conditioned')
         return ('value', v, ty, ex)
     except E.Undefined as u: return ('undefined', str(u))
     except E.Unjudged as u: return ('unjudged', str(u))
@@ -86,7 +99,7 @@ def same(folded, v, ty, ex):
         return E.bits_of(v) == folded['f'], 'got %r (%#010x), model %r (%#010x)' % (got, folded['f'], v, E.bits_of(v))
     if got != got or math.isinf(got) or math.isinf(v): return (got == v), 'got %r, model %r' % (got, v)
     ulp = abs(folded['f'] - E.bits_of(v)) if (got < 0) == (v < 0) else 99
-    return ulp <= 2 or abs(got - v) <= 1e-6 * max(1.0, abs(v)), 'got %r, model ~%r' % (got, v)
+    return ulp <= 2 or abs(got - v) <= 2e-5 * max(1e-30, abs(v)) or abs(got - v) <= 1e-6, 'got %r, model ~%r' % (got, v)
 
 def lang(): return {'kind': 'test', 'language': 'anm', 'int_regs': [], 'float_regs': [], 'game': 'th10'}
 MAPFILE = '!anmmap\n!gvar_types\n' + ''.join('%d $\n' % r for r in range(1000, 1004)) + ''.join('%d %%\n' % r for r in range(1004, 1008)) + '!ins_signatures\n900 S\n901 f\n'
